@@ -17,7 +17,7 @@ def save(n, m): json.dump(m, open(meta_path(n), "w"), indent=1)
 
 def do_import(pid, offset=0):
     src = f"/tmp/wt-{pid}/SEEDED"
-    for k0 in sorted(os.listdir(src)):
+    for k0 in sorted(x for x in os.listdir(src) if x.isdigit()):
         k = str(int(k0) + offset)
         d = f"{ROOT}/{pid}-{k}"
         os.makedirs(d, exist_ok=True)
